@@ -80,6 +80,11 @@ def _removeUltrashortIntervals(
             )
         j += 1
 
+    # Every interval was ultra-short: nothing absorbed anything, and the tier
+    # would be written without a single interval; keep the span covered
+    if len(newEntries) == 0 and len(tier["entries"]) > 0:
+        newEntries.append(Interval(minTimestamp, tier["entries"][-1][1], ""))
+
     tier["entries"] = newEntries
 
 
